@@ -2,6 +2,7 @@ import FtdcVerif.Lemmas.HdrRank
 import FtdcVerif.Lemmas.Window
 import FtdcVerif.Lemmas.HdrMinMax
 import FtdcVerif.Lemmas.HdrMergeX
+import FtdcVerif.Lemmas.HdrMean
 /-!
 # C13 — quantiles, merges, windows and snapshots agree with an exact oracle
 
@@ -208,6 +209,59 @@ theorem min_is_lowest_equivalent_of_minimum {minV : Int} {maxV s : Nat} (hv : Va
     rw [hs] at hw
     refine Nat.le_trans (Nat.mul_le_mul_right _ ?_) hw
     omega
+
+/-! ### Mean -/
+
+/-- **The numerator of `Mean()` is the sum of the median equivalent values of the recorded values**
+(the division by the total count is one float operation, trusted) -/
+theorem mean_numerator_is_sum_of_medians {minV : Int} {maxV s : Nat} (hv : Valid minV maxV s)
+    (vs : List Int) (h63 : ∀ v ∈ vs, v < 2 ^ 63) :
+    meanNum (recordAll (new minV maxV s) vs) =
+      ((accepted (new minV maxV s) vs).map fun a => ((medianEquiv (new minV maxV s) a : Nat) : Int)).sum := by
+  generalize hN : new minV maxV s = N
+  have wf : WF N := by rw [← hN]; exact new_wf' hv
+  have hz : N.counts = List.replicate N.countsLen 0 := by rw [← hN]; rfl
+  have ht : N.total = 0 := by rw [← hN]; rfl
+  have e := recordAll_eq N vs N.counts N.total
+  change recordAll N vs = _ at e
+  rw [hz, ht] at e
+  have inv := (recordAll_spec vs N (by rw [← hN]; exact new_inv _ _ _)).1
+  have nn := recordAll_nonneg vs N (by intro c hc; rw [hz] at hc; simp at hc; omega)
+  have hlen : (recordAll N vs).counts.length = (recordAll N vs).countsLen := by
+    rw [e]; show (cnts N _ vs).length = N.countsLen; rw [cnts_length]; simp
+  have hcnt : ∀ k, (recordAll N vs).counts.getD k 0 =
+      (((accepted N vs).countP fun a => idx (recordAll N vs) a == k : Nat) : Int) := by
+    intro k; rw [e]; exact counts_getD_accepted wf vs k
+  have hcap : cap (recordAll N vs) = cap N := by rw [e]; rfl
+  have hwf : WF (recordAll N vs) := by rw [e]; exact wf_with wf _ _
+  have := mean_fold hwf hlen nn inv.2 (accepted N vs)
+    (by intro a ha; rw [hcap]; exact mem_accepted wf h63 ha) hcnt
+    ((recordAll N vs).countsLen + 2) 0 (-1) 0 0 (st_init _ (Nat.two_pow_pos _)) (by omega)
+  have hp0 : pre (recordAll N vs).counts 0 = 0 := by simp [pre]
+  rw [hp0] at this
+  rw [meanNum_eq]
+  unfold iter
+  rw [this, Int.zero_add]
+  unfold sumFrom
+  congr 1
+  apply List.map_congr_left
+  intro a _
+  simp only [Nat.zero_le, if_true]
+  rw [e]; rfl
+
+/-- every median equivalent value is within half a range of the value itself, and the range is
+within the precision bound (`quantile_within_precision`) -/
+theorem median_within_half_range {minV : Int} {maxV s : Nat} (hv : Valid minV maxV s) (a : Nat)
+    (ha : a < cap (new minV maxV s)) :
+    medianEquiv (new minV maxV s) a ≤ a + sizeOfRange (new minV maxV s) a / 2 ∧
+    a ≤ medianEquiv (new minV maxV s) a + sizeOfRange (new minV maxV s) a / 2 := by
+  have wf := new_wf' hv
+  have hr := value_in_range' wf ha
+  have hpos := size_pos' wf ha
+  have hhi : highestEquiv (new minV maxV s) a = lowestEquiv (new minV maxV s) a + sizeOfRange (new minV maxV s) a - 1 := rfl
+  have hmed : medianEquiv (new minV maxV s) a = lowestEquiv (new minV maxV s) a + sizeOfRange (new minV maxV s) a / 2 := by
+    simp [medianEquiv, Nat.shiftRight_eq_div_pow]
+  omega
 
 /-! ### merging -/
 
